@@ -36,6 +36,17 @@ import PycsepVerif.PyPrelude
     a function body from its first top-level loop on (TARGETS.body_from = "for")   the variables that are live at the loop
                                 (TARGETS.live_in) are parameters of the definition; the statements before it are listed in
                                 the header and are not part of the definition
+    truthiness of a list / str  `not xs` = `List.isEmpty xs`, `not s` = (s == "")
+    `isinstance(x, str)` / `isinstance(x, (list, tuple))`   a constant of the specialisation (the declared type of `x`)
+    `s.split(' ')`, `' '.join(xs)`   `PySM.split`, `PySM.join`; `a, b, c = xs` on a list = `PySM.unpack3` (ValueError)
+    `{'>': operator.gt, …}`     a list of (key, `PySM.Cmp`); `d[k]` = `PySM.dictGet` (KeyError); `d[k](col, v)` =
+                                `List.map (fun x => Cmp.apply op x v) col`
+    `a[name]`, name a run-time str   `PySM.column fieldOf name a` (ValueError for an unknown field)
+    `numpy.copy(a)`, `list(xs)` a fresh copy: the identity under value semantics
+    `cls = self.__class__; cls(k=v, …)`   an opaque constructor parameter (TARGETS.opaque["cls"])
+    `obj.attr` of an opaque object (TARGETS.rec_attrs)   an opaque projection parameter `<Type>_<attr>`
+    `numpy.zeros(n)`, `numpy.zeros((n, m))` of counts   `List.replicate n 0`, `List.replicate n (List.replicate m 0)`
+    `a[(i, j)] += 1` (2-d counts)   `PySM.bump2 a i j 1`; `numpy.add.at` with int indices = `PySM.addAtI`
     `x ** y` on floats          opaque parameter `pow` (transcendental; the hand models take its value as an input)
     in-place array update       `a.fill(v)`, `a[i] = v`, `numpy.add.at(a, idx, v)`, `a.append(v)`, `a += b` rebind the
                                 variable `a`; sound because the translator refuses a variable that has an alias
@@ -59,6 +70,7 @@ inductive Exc where
   | stopIteration
   | typeError
   | attributeError
+  | keyError
   | rngExhausted             -- the supplied stream of uniform numbers ran out (NOT a Python exception)
   | outOfFuel                -- a `while` loop did not finish within its fuel (NOT a Python exception)
   deriving DecidableEq, Repr
@@ -165,6 +177,23 @@ def NdArr.setAt {β : Type} (a : NdArr β) (idx : List Int) (v : β) : M (NdArr 
   | some j => .ok { a with get := fun q => if q = j then v else a.get q }
   | none => .error (.py .indexError)
 
+/-- `numpy.add.at(a, idx, v)` with Python-int indices (negative ones count from the end) -/
+def addAtI (a : List Nat) : List Int → Nat → M (List Nat)
+  | [], _ => .ok a
+  | i :: is, v =>
+    match normIdx a.length i with
+    | some k => addAtI (a.modify k (· + v)) is v
+    | none => .error (.py .indexError)
+
+/-- `a[(i, j)] += v` on a 2-d array of counts kept as a list of rows: IndexError outside -/
+def bump2 (a : List (List Nat)) (i j : Int) (v : Nat) : M (List (List Nat)) :=
+  match normIdx a.length i with
+  | none => .error (.py .indexError)
+  | some r =>
+    match normIdx ((a.getD r []).length) j with
+    | none => .error (.py .indexError)
+    | some c => .ok (a.modify r (fun row => row.modify c (· + v)))
+
 /-- `a.append(v)` -/
 def append {β : Type} (a : List β) (v : β) : List β := a ++ [v]
 
@@ -186,6 +215,52 @@ def rngUniform : List Rat → M (Rat × List Rat)
 /-- `numpy.random.rand(n)` / `numpy.random.random(n)`: the next `n` numbers -/
 def rngRand (n : Nat) (rng : List Rat) : M (List Rat × List Rat) :=
   if n ≤ rng.length then .ok (rng.take n, rng.drop n) else .error .rngExhausted
+
+/-! ## strings, operator tables, structured arrays (round 4c) -/
+
+/-- `s.split(sep)` for a non-empty literal separator -/
+def split (s sep : String) : List String := s.splitOn sep
+
+/-- `sep.join(parts)` -/
+def join (sep : String) (parts : List String) : String := sep.intercalate parts
+
+/-- `a, b, c = xs`: ValueError unless the list has exactly three items -/
+def unpack3 {β : Type} : List β → M (β × β × β)
+  | [a, b, c] => .ok (a, b, c)
+  | _ => .error (.py .valueError)
+
+/-- `a, b, c, d = xs` -/
+def unpack4 {β : Type} : List β → M (β × β × β × β)
+  | [a, b, c, d] => .ok (a, b, c, d)
+  | _ => .error (.py .valueError)
+
+/-- the comparison functions of the `operator` module -/
+inductive Cmp where
+  | gt | lt | ge | le | eq | ne
+  deriving DecidableEq, Repr
+
+/-- `operator.gt(a, v)` … on two float64 values (element of an array against a scalar) -/
+def Cmp.apply : Cmp → Rat → Rat → Bool
+  | .gt, a, v => decide (v < a)
+  | .lt, a, v => decide (a < v)
+  | .ge, a, v => decide (v ≤ a)
+  | .le, a, v => decide (a ≤ v)
+  | .eq, a, v => decide (a = v)
+  | .ne, a, v => !decide (a = v)
+
+/-- `d[key]` for a dict literal with string keys: KeyError when the key is missing (first entry wins is irrelevant:
+    a literal with a repeated key keeps the LAST value in Python — the translator refuses repeated keys) -/
+def dictGet {β : Type} : List (String × β) → String → M β
+  | [], _ => .error .keyError
+  | (k, v) :: rest, key => if k == key then .ok v else dictGet rest key
+
+/-- `a[name]` for a structured array `a` and a field name known only at run time, as float64 values (an int64 field is
+    converted as numpy does when it meets a float: exact below 2^53). `fieldOf` says which field names the dtype has
+    (an opaque parameter of the generated definition); ValueError ("no field of name …") otherwise. -/
+def column {ρ : Type} (fieldOf : String → Option (ρ → Rat)) (name : String) (a : List ρ) : M (List Rat) :=
+  match fieldOf name with
+  | some f => .ok (a.map f)
+  | none => .error (.py .valueError)
 
 /-! ## Optional values -/
 
